@@ -150,6 +150,15 @@ def engine_part(a, b, kind, attrs, fails, GraphMatcherEngine):
                     res_sets[wl] = {tuple(sorted(dict(m).items())) for m in res}
         if res_sets[False] != res_sets[True]:
             fails.append(Fail("filter_changes_result_set", f"{tagsel} {tag}: {len(res_sets[False])} vs {len(res_sets[True])}", "same set", key_extra=f"{tagsel},{tag}"))
+        # the search engine's own cheap pre-filter: on or off, the set of embeddings is the same
+        from synkit.Graph.Matcher.subgraph_matcher import SubgraphSearchEngine as SE
+
+        for strat in ("all", "bt"):
+            sets = []
+            for pf in (False, True):
+                sets.append({tuple(sorted(dict(m).items())) for m in SE.find_subgraph_mappings(host, pat, node_attrs=list(attrs), edge_attrs=["order"], strategy=strat, pre_filter=pf)})
+            if sets[0] != sets[1]:
+                fails.append(Fail("search_pre_filter_changes_result_set", f"{tagsel} {tag} {strat}: {len(sets[0])} embeddings without, {len(sets[1])} with the pre-filter", "same set", key_extra=f"{tagsel},{tag},{strat}"))
     return iso_ab or iso_ba or contained_any
 
 
@@ -322,11 +331,65 @@ def check_hist(case):
     return Outcome(nontrivial=bool(alone), outcome=f"{kind}:{bool(alone)}", fails=fails, transitions=len(case) + 1)
 
 
+# ------------------------------------------------------------------ a long-lived engine and short-lived graphs (E3, id() answers)
+def gen_lifetime(tier, seed):
+    k = len(HG)
+    pairs = [(i, j) for i in range(k) for j in range(k)]
+    for p in pairs:
+        for q in pairs:
+            if tier != "quick" or p != q:
+                yield {"pairs": [list(p), list(q)]}
+
+
+def check_lifetime(case):
+    """one engine object answers for pairs of graphs that are built, queried and dropped; a new graph may be given the id()
+    of any graph that has died (what CPython permits); every answer must be the definition's"""
+    from synkit.Graph.Matcher import graph_matcher as gmod
+    from mc.seams import ObjectIdSeam, explore
+    from mc.checks.c14 import freeze_heap
+
+    freeze_heap()
+    want = []
+    for i, j in case["pairs"]:
+        a, b = build(HG[i], "v", 0), build(HG[j], "v", 10)
+        want.append((rm.isomorphic(b, a, node_eq, edge_ok), len(list(rm.morphisms(b, a, node_eq, edge_ok, induced=True))) > 0))
+
+    def run(ch):
+        seam = ObjectIdSeam(ch)
+        gmod.id = seam
+        try:
+            out = []
+            for wl in (False, True):
+                eng = gmod.GraphMatcherEngine(node_attrs=["element", "charge"], edge_attrs=["order"], wl1_filter=wl)
+                for i, j in case["pairs"]:
+                    a, b = build(HG[i], "v", 0), build(HG[j], "v", 10)
+                    out.append((bool(eng.isomorphic(a, b)), bool(eng.get_mappings(a, b))))
+                    del a, b
+            return out, seam.aliased
+        finally:
+            try:
+                del gmod.id
+            except AttributeError:
+                pass
+
+    results, complete = explore(run, 2, max_exec=400)
+    fails = []
+    for choices, (out, aliased) in results:
+        if out != want + want:
+            fails.append(Fail("engine_lifetime", f"id choices {choices}: answers {out}", f"{want + want} (each pair judged on its own)"))
+            break
+    if not complete:
+        fails.append(Fail("e3_cap", "execution cap hit", "complete exploration"))
+    return Outcome(nontrivial=any(w[0] for w in want) and not all(w[0] for w in want), outcome=f"execs{min(len(results), 9)}", fails=fails, transitions=len(results))
+
+
 def subchecks(tier, seed):
     return [
         Sub("pairs", gen_pairs, check, key=lambda c: f"{c[0]}~{c[1]}", rule=RULE[tier]),
         Sub("hcount_pairs", gen_h, check, key=lambda c: f"{c[0]}~{c[1]}", rule=RULE[tier]),
         Sub("histories", gen_hist, check_hist, key=lambda c: str(c), rule=RULE[tier]),
+        Sub("engine_lifetime", gen_lifetime, check_lifetime, key=lambda c: str(c["pairs"]), rule="one long-lived engine (pre-filter on / off), every sequence of two ordered pairs of the 4 colliding graphs, each pair built, queried (isomorphic, get_mappings) and dropped; "
+            "id() answered by a seam that may give a new graph the id of any dead one (<= 2 reuses); every answer compared with the definition"),
     ]
 
 
